@@ -112,7 +112,7 @@ theorem line_partition_independent_server (A : Auth α) (s : St α) (d d' : Byte
 CR LF, the authenticator reporting success after the last one and not before - followed by arbitrary
 bytes `rest`.  However it is cut into reads (for instance with the final handshake line and message
 bytes in one read): the authenticator receives exactly the handshake lines, the messages delivered are
-`frames rest`, the rest of `rest` stays buffered, the protocol is in binary mode.
+`frames rest`, the rest of `rest` stays buffered, the protocol is in binary mode (invariant `Framed`).
 No assumption on the content of `rest` (it may contain CR LF anywhere). -/
 theorem handoff (A : Auth α) (s : St α) (hs : List Bytes) (last rest : Bytes) (reads : List Bytes) (a1 a' : α)
     (hr : Ready s) (ha : s.authenticated = false) (hbuf : s.buffer = []) (hcl : s.closed = false)
@@ -124,7 +124,8 @@ theorem handoff (A : Auth α) (s : St α) (hs : List Bytes) (last rest : Bytes) 
     msgsOf (run A s reads).2 = (Spec.frames rest).1 ∧
     (run A s reads).1.buffer = (Spec.frames rest).2 ∧
     (run A s reads).1.authenticated = true ∧
-    (run A s reads).1.closed = false := by
+    (run A s reads).1.closed = false ∧
+    Framed (run A s reads).1 := by
   cases reads with
   | nil => exact absurd rfl hne
   | cons d ds =>
@@ -147,7 +148,7 @@ theorem handoff (A : Auth α) (s : St α) (hs : List Bytes) (last rest : Bytes) 
     simp only [handoffState, List.nil_append] at hb
     simp only [handoffState] at hone
     rw [hone] at hrf
-    refine ⟨?_, ?_, ?_, ?_, ?_⟩
+    refine ⟨?_, ?_, ?_, ?_, ?_, ?_⟩
     · rw [← linesOf_noLose, hrf.2, linesOf_noLose]
       show linesOf (_ ++ _) = _
       rw [hb.1]
@@ -159,6 +160,7 @@ theorem handoff (A : Auth α) (s : St α) (hs : List Bytes) (last rest : Bytes) 
     · rw [hrf.1]; exact hb.2.1
     · rw [hrf.1]; rfl
     · rw [hrf.1]; rfl
+    · rw [hrf.1]; exact hb.2.2
 
 /-- C04.4 for a freshly connected server (NUL byte first, first read not empty). -/
 theorem handoff_server (A : Auth α) (s : St α) (hs : List Bytes) (last rest d : Bytes) (ds : List Bytes)
@@ -173,7 +175,8 @@ theorem handoff_server (A : Auth α) (s : St α) (hs : List Bytes) (last rest d 
     msgsOf (run A s ((0 :: d) :: ds)).2 = (Spec.frames rest).1 ∧
     (run A s ((0 :: d) :: ds)).1.buffer = (Spec.frames rest).2 ∧
     (run A s ((0 :: d) :: ds)).1.authenticated = true ∧
-    (run A s ((0 :: d) :: ds)).1.closed = false := by
+    (run A s ((0 :: d) :: ds)).1.closed = false ∧
+    Framed (run A s ((0 :: d) :: ds)).1 := by
   have e1 : run A s ((0 :: d) :: ds) = run A { s with firstByte := false } (d :: ds) := by
     rw [run_cons, run_cons, (server_first_read A s d hc hfb ha).1]
   rw [e1]
